@@ -130,7 +130,7 @@ THEOREMS_ROOTTIE = ["RootTie." + t for t in "rho1Backward_is_model rho2Backward_
 THEOREMS_C04B = ["C04b." + t for t in "mix_sub_self norm_mix_sub_self mix_lipschitz residual_bound fixed_point_unique mix_fixedPoint_eq stopped_mixing_bound two_solvers_agree tighter_is_closer".split()]
 THEOREMS_C16C = ["C16c." + t for t in "ritz_exact_of_invariant zero_residuals_miss_a_lower_root".split()]
 THEOREMS_CONSTTIE = ["ConstTie." + t for t in "overlap_cutoff_beyond_c06_range overlap_cutoff_inside_c19_probe_range".split()]
-THEOREMS_C11TDM = ["MDOut." + t for t in "tdmDue_succ tdmDue_length_le tdmRun_capacity tdmRun_labels tdm_stream tdm_eq_spec_iff tdm_exact_of_dvd tdm_data_off tdm_filler_count gateTdm_is_isDue".split()]
+THEOREMS_C11TDM = ["MDOut." + t for t in "tdmDue_succ tdmDue_length_le tdmRun_capacity tdmRun_labels tdm_stream tdm_eq_spec_iff tdm_exact_of_dvd tdm_data_off tdm_filler_count tdm_resume_cursor_exact gateTdm_is_isDue".split()]
 THEOREMS_GATESTIE = ["GatesTie." + t for t in "gateData_is_isDue gateCkpt_is_isDue gateVec_is_isDue gateXyz_is_isDue gateScreen_is_isDue gateNa_is_isDue naLabel_is_step".split()]
 THEOREMS_C05C = ["C05c." + t for t in "same_all_eq packBatch_rowwise packBatch_row_independent coarse_shortcut_witness coarse_first_row_ok".split()]
 THEOREMS_C17C = ["C17c." + t for t in "gap_depends_on_own_row gaps_fst position_gather_witness position_gather_invisible_on_prefix".split()]
